@@ -259,6 +259,15 @@ struct Extractor {
 
   void children(json::OStream &J, const Stmt *S) {
     J.attributeArray("c", [&] {
+      // a defaulted argument / member initialiser stands for the expression written at the declaration
+      if (const auto *DA = dyn_cast<CXXDefaultArgExpr>(S)) {
+        if (const Expr *X = DA->getExpr()) { J.object([&] { node(J, X); }); }
+        return;
+      }
+      if (const auto *DI = dyn_cast<CXXDefaultInitExpr>(S)) {
+        if (const Expr *X = DI->getExpr()) { J.object([&] { node(J, X); }); }
+        return;
+      }
       for (const Stmt *C : S->children()) {
         if (!C) { J.value(nullptr); continue; }
         J.object([&] { node(J, C); });
